@@ -116,6 +116,7 @@ func (p *Pipe) Write(b []byte) (int, error) {
 		p.MaxInflight = p.inflight
 	}
 	hook := p.OnWrite
+	Tracef("pipe %s write off=%d n=%d by %s", p.cfg.Name, p.written, len(b), CurrentName())
 	p.mu.Unlock()
 	defer func() { p.mu.Lock(); p.inflight--; p.mu.Unlock() }()
 	if hook != nil {
@@ -263,6 +264,7 @@ func (p *Pipe) Read(b []byte) (int, error) {
 			}
 		}
 		copy(b, p.buf[:n])
+		Tracef("pipe %s read off=%d n=%d of %d avail (buf %d) by %s", p.cfg.Name, p.consumed, n, avail, len(b), CurrentName())
 		p.buf = p.buf[n:]
 		if len(p.buf) == 0 {
 			p.buf = nil
